@@ -3,7 +3,15 @@
 // Helpers shared by the bounded harnesses of package ring (injected with every harness run).
 package ring
 
-import "time"
+import (
+	"time"
+
+	shardUtilPkg "github.com/grafana/dskit/ring/shard"
+)
+
+func shardUtilExpected(size, zones int) int {
+	return shardUtilPkg.ShuffleShardExpectedInstancesPerZone(size, zones)
+}
 
 func verifBuildRing(desc *Desc, rf int, zoneAware bool) *Ring {
 	r := &Ring{
@@ -15,3 +23,5 @@ func verifBuildRing(desc *Desc, rf int, zoneAware bool) *Ring {
 	r.setRingStateFromDesc(desc, false, true, true)
 	return r
 }
+
+func shardExpected(size, zones int) int { return shardUtilExpected(size, zones) }
